@@ -21,6 +21,10 @@ from harness.fw import Check, Driver, ToolFailure, VERIF
 PER_METHOD = 2000
 PER_CLASS = 4000
 
+# hand-modelled functions (Model/JavaString.lean); a changed AST escalates the search (ck.pins_changed)
+PINS = [("androguard/decompiler/writer.py", "string"),
+        ("androguard/decompiler/writer.py", "Writer.visit_constant")]
+
 
 # ------------------------------------------------------------------ real code
 def real_string(s: str):
@@ -305,6 +309,63 @@ def rand_string(rng):
     return "".join(out)
 
 
+# ---- escape-like text: strings that CONTAIN the text of escapes in many syntaxes. An escaper that works per
+# character is indifferent to them; one that post-processes its own output (codec + regex, double unescaping ...)
+# is not. Systematic part first (deterministic), then seeded combinations.
+HEXSRC = "000001f600"
+CTX = ["", "\x01", "\U0001F600", "\ud83d", "\udc00", "\"", "a", "\n", "\x7f", "\u00e9"]
+
+
+def _hexrun(n, upper=False, rng=None):
+    h = HEXSRC[-n:] if rng is None else "".join(rng.choice("0123456789abcdef") for _ in range(n))
+    return h.upper() if upper else h
+
+
+def escape_like_systematic():
+    out = []
+    B = "BSL"
+    for k in (1, 2, 3):
+        for ctx in CTX[:5]:
+            for n in range(1, 11):
+                for up in (False, True):
+                    for lead in ("u", "U", "x", "uu", "uuu", "x{", "N{", "0", "1", "3", "7", "u+", "U+"):
+                        out.append(ctx + B * k + lead + _hexrun(n, up) + ("}" if lead.endswith("{") else ""))
+            for e in "btnfrs0\"'BSLuUxN":
+                out.append(ctx + B * k + e)
+            for o in ("0", "7", "12", "47", "177", "377", "400", "0000", "1234", "08", "19"):
+                out.append(ctx + B * k + o)
+    out += ["%5C%75%30%30%34%31", "%5cu0041", "%u1F600", "%U0001F600", "&#x1F600;", "&#128512;", "&#x5c;u0041", "U+1F600",
+            "u0041", "U0001f600", "BSLN{LATIN SMALL LETTER A}", "BSLN{GRINNING FACE}", "BSLQBSLu0041BSLE", "$1", "${x}", "BSLp{L}",
+            "BSLx{1F600}", "BSLu{1F600}", "BSLud83dBSLude00", "BSLuD83DBSLuDE00", "BSLU0001f600BSLU0001f601", "BSLBSLU0001f600",
+            "BSLU0001f600\U0001F600", "\U0001F600BSLU0001f600", "BSLU0010ffff", "BSLU00110000", "BSLU00010000", "BSLU0000ffff",
+            "BSLU0000d800", "BSLUffffffff", "BSLU00000041", "xBSLU0001f600y", "BSLuBSLU0001f600", "BSLu005cu0041", "BSLu005cBSLu005c"]
+    return [x.replace(B, "\\") for x in out]
+
+
+def escape_like_random(rng):
+    parts = []
+    for _ in range(rng.choice((1, 1, 2, 3))):
+        ctx = rng.choice(CTX)
+        k = rng.choice((1, 1, 1, 2, 2, 3, 4))
+        kind = rng.randrange(9)
+        n = rng.choice((1, 2, 3, 4, 4, 5, 6, 8, 8, 8, 9, 10))
+        up = rng.random() < 0.3
+        h = _hexrun(n, up, rng if rng.random() < 0.6 else None)
+        if kind == 0: body = "u" * rng.choice((1, 1, 2, 3, 5)) + h
+        elif kind == 1: body = "U" + h
+        elif kind == 2: body = "x" + h
+        elif kind == 3: body = "".join(rng.choice("01234567") for _ in range(rng.choice((1, 2, 3, 4))))
+        elif kind == 4: body = rng.choice("btnfrs\"'0") + rng.choice(["", h])
+        elif kind == 5: body = rng.choice(["N{", "x{", "u{", "p{"]) + rng.choice([h, "LATIN SMALL LETTER A"]) + "}"
+        elif kind == 6: body = rng.choice(["U", "u"]) + rng.choice(["0001f600", "0010ffff", "00010000", "0000d83d", "d83d", "de00"])
+        elif kind == 7:
+            parts.append(ctx + rng.choice(["%5C", "%5c", "%u", "&#x", "&#", "U+", "0x"]) + h + rng.choice(["", ";"]))
+            continue
+        else: body = rng.choice("uUx") + h + rng.choice(["", "\\", "\\u", "\\U" + _hexrun(8, False, rng)])
+        parts.append(ctx + "\\" * k + body)
+    return "".join(parts)
+
+
 def corpus_strings():
     out = []
     for p in sorted(glob.glob(os.path.join(VERIF, "corpus", "C23", "*.json"))):
@@ -383,12 +444,17 @@ def judge(ck: Check, via, strings, literals, reads):
 
 
 def run(ck: Check):
+    ck.pins_changed(PINS)                  # a changed string()/visit_constant escalates the search below
+    ck.run_gen("jstring")                  # shape + literals of string(); an unrecognised shape = broken obligation
     ck.prove(exes=["drv_C23"])
+    big = (not ck.quick) or getattr(ck, "escalated", False) or bool(ck.p_errors)
     drv = Driver("drv_C23")
     rng = ck.rng
     ck.rule = ("strings: corpus, hand-made traps (backslash-u, quotes, line terminators, surrogates), every BMP code point as a "
                "one-character string, supplementary code points singly (quick: planes' boundaries + seeded sample; thorough: all), "
-               "seeded random strings over the full code-point range incl. unpaired surrogates. distinct = distinct string; "
+               "seeded random strings over the full code-point range incl. unpaired surrogates, and an escape-like-text stream (strings "
+               "containing the TEXT of escapes: backslash runs + u/U/x/N{}/octal/named + 1-10 hex digits in both cases, after control, "
+               "supplementary and surrogate characters, percent and &#x; forms; systematic + seeded). distinct = distinct string; "
                "non-trivial = contains anything but unescaped printable ASCII")
     strings = corpus_strings() + list(TRAPS)
     strings += [chr(c) for c in range(0x10000)]
@@ -399,7 +465,9 @@ def run(ck: Check):
         strings += [chr(c) for c in sorted(sup)]
     else:
         strings += [chr(c) for c in range(0x10000, 0x110000)]
-    nrand = 24000 if ck.quick else 400000
+    esc = escape_like_systematic() + [escape_like_random(rng) for _ in range(60000 if big else 5000)]
+    strings += esc
+    nrand = 400000 if big else 24000
     strings += [rand_string(rng) for _ in range(nrand)]
 
     # ---- T: real vs model
@@ -436,7 +504,8 @@ def run(ck: Check):
     dist = {"printable_ascii": 0, "quote_or_backslash": 0, "control": 0, "bmp_non_ascii": 0, "lone_surrogate": 0,
             "supplementary": 0, "empty": 0, "len>1": 0,
             "judged_by_jls_reader_not_javac(javac17_surrogate_lookahead_defect_shape)": sum(1 for s in strings if JAVAC_BUG_SHAPE.search(s)),
-            "jls_reader_vs_javac_disagreements": len(dis)}
+            "jls_reader_vs_javac_disagreements": len(dis), "escape_like_text": len(esc),
+            "escalated": int(bool(getattr(ck, "escalated", False)))}
     for s in strings:
         for k in classify(s):
             dist[k] += 1
@@ -449,9 +518,10 @@ def run(ck: Check):
              dist=dist)
 
     # ---- S: end to end through the DEX parser and the decompiler
-    ne = 400 if ck.quick else 6000
+    ne = 6000 if big else 400
     from harness.dexasm import norm_str
-    es = list(dict.fromkeys(norm_str(s) for s in (corpus_strings() + TRAPS + [rand_string(rng) for _ in range(ne)])))
+    es = list(dict.fromkeys(norm_str(s) for s in (corpus_strings() + TRAPS + [rand_string(rng) for _ in range(ne)]
+                                                   + [escape_like_random(rng) for _ in range(ne // 2)] + escape_like_systematic()[::7])))
     # DEX strings are MUTF-8: an adjacent surrogate pair and the supplementary code point are the same string
     try:
         elits = e2e_literals(es)
